@@ -40,6 +40,7 @@ pub fn profiles() -> Vec<(&'static str, GenCfg)> {
     thr.fn_text = false;
     thr.tunnels = false;
     thr.thread_boost = true;
+    thr.thread_fallbacks = true;
     let mut all = base.clone();
     all.thread_boost = true;
     all.nested_functions = true;
